@@ -153,7 +153,12 @@ func (m *MIME) cloneHierarchy(ps map[string]string) *MIME {
 }
 
 func (m *MIME) lookup(mime string) *MIME {
-	for _, n := range append(m.aliases, m.mime) {
+	// Do not append to m.aliases here: for extensions it is the caller's slice,
+	// and lookup runs under the read lock only.
+	if m.mime == mime {
+		return m
+	}
+	for _, n := range m.aliases {
 		if n == mime {
 			return m
 		}
